@@ -11,7 +11,7 @@ namespace sim
 char const* engine_name(int e)
 {
     static char const* const n[] = {"script64", "script32", "minstd_rand0", "minstd_rand", "mt19937",
-        "mt19937_64", "ranlux24_base", "ranlux48_base", "ranlux24", "ranlux48", "knuth_b"};
+        "mt19937_64", "ranlux24_base", "ranlux48_base", "ranlux24", "ranlux48", "knuth_b", "script14"};
     return (e >= 0 && e < E_COUNT) ? n[e] : "?";
 }
 
@@ -108,6 +108,7 @@ std::string Plan::to_text() const
     o << "eng=" << eng << '\n';
     o << "eseed=" << eseed << '\n';
     o << "dims=" << dims << '\n';
+    o << "mapd=" << mapd << '\n';
     o << "bins=" << bins << '\n';
     o << "chan=" << chan << '\n';
     o << "calls=";
@@ -194,6 +195,7 @@ bool Plan::from_text(std::string const& text, Plan& p, std::string& err)
         else if (k == "eng") p.eng = i(v);
         else if (k == "eseed") p.eseed = u(v);
         else if (k == "dims") p.dims = u(v);
+        else if (k == "mapd") p.mapd = u(v);
         else if (k == "bins") p.bins = u(v);
         else if (k == "chan") p.chan = u(v);
         else if (k == "calls")
